@@ -107,6 +107,8 @@ type Ctx struct {
 	Replay  bool // true when re-running one case for `replay`
 	Verbose bool
 	caseNT  bool
+
+	expensive map[string]int
 }
 
 func newCtx(check, tier string) *Ctx {
@@ -173,6 +175,20 @@ func (c *Ctx) Sample(v any) {
 		c.stats.Samples = append(c.stats.Samples, v)
 	}
 }
+
+// Expensive marks the failure just recorded as costly to reproduce (a hang, a crash, an
+// exceeded step budget). A worker that has seen six of them in one space skips the rest of
+// that space: the tree is broken beyond doubt and every further case may cost minutes.
+func (c *Ctx) Expensive() {
+	if c.space != nil {
+		if c.expensive == nil {
+			c.expensive = map[string]int{}
+		}
+		c.expensive[c.space.Name]++
+	}
+}
+
+func (c *Ctx) spaceExhausted(sp *Space) bool { return c.expensive[sp.Name] >= 6 }
 
 // Fail records a violation for the current case. witness is the canonical
 // (shrunk) form used to match known findings; detail is free-form.
@@ -314,6 +330,10 @@ func WorkerMain(checkID, tier string) {
 		sp := &plan.Spaces[si]
 		truncated := false
 		for i := lo; i < hi; i++ {
+			if c.spaceExhausted(sp) {
+				truncated = true
+				break
+			}
 			c.runCase(sp, i)
 			if len(c.viol) >= 40 {
 				// a tree this broken needs no further cases from this chunk (each may be
